@@ -9,4 +9,10 @@ python3 tools/genreg.py
 ( cd lean && lake build TF tfm )
 cp -f /repo/Cargo.lock harness/Cargo.lock 2>/dev/null || true
 ( cd harness && cargo build --release --offline )
+# ops of the quick tier for the default seed, kept as a fallback for runs in which the op generator (part of the harness binary,
+# it calls a few index functions of the crate) crashes or hangs against a changed implementation (tools/checklib.py)
+for i in 01 02 03 04 05 06 07 08 09 10 11 12 13 14 15 16 17 18 19 20; do
+  timeout 300 harness/target/release/tfh gen C$i --seed ${VERIF_SEED:-1} --tier quick > work/C$i.quick.seed${VERIF_SEED:-1}.ops.good.tmp 2>/dev/null \
+    && mv work/C$i.quick.seed${VERIF_SEED:-1}.ops.good.tmp work/C$i.quick.seed${VERIF_SEED:-1}.ops.good || rm -f work/C$i.quick.seed${VERIF_SEED:-1}.ops.good.tmp
+done
 echo "setup done"
